@@ -3,7 +3,8 @@
 tier=${1:-quick}
 cd "$(dirname "$0")/.."
 for id in C01 C02 C03 C04 C05 C06 C07 C08 C09 C10 C11 C12 C13 C14 C15 C16 C17 C18 C19 C20; do
-  out=$(/venv/bin/python -m amc check $id --tier $tier 2>&1); rc=$?
+  dump=""; [ -n "$DUMPDIR" ] && dump="--dump $DUMPDIR/${tier}_$id.json"
+  out=$(/venv/bin/python -m amc check $id --tier $tier $dump 2>&1); rc=$?
   nv=$(echo "$out" | grep -c "^VIOLATION")
   echo "$id rc=$rc violations=$nv $(echo "$out" | grep "^property=" | sed 's/.*wall=\([0-9.]*s\).*known=\([0-9]*\)/wall=\1 known=\2/')"
   echo "$out" | grep -A2 "^VIOLATION\|HARNESS" | head -12
